@@ -365,6 +365,39 @@ func init() {
 					}
 				}
 			})
+			if start == nil {
+				// conditional form: start := virtualTime; if f := streamFinish[id]; f > start { start = f }
+				isFin := func(v ssa.Value) bool {
+					lk, ok := v.(*ssa.Lookup)
+					return ok && IsLoadOf(sf)(lk.X)
+				}
+				forEachInstr(push, func(in ssa.Instruction) {
+					phi, ok := in.(*ssa.Phi)
+					if !ok || len(phi.Edges) != 2 {
+						return
+					}
+					for i := 0; i < 2; i++ {
+						a, b := phi.Edges[i], phi.Edges[1-i]
+						if !IsLoadOf(vt)(a) || !isFin(b) {
+							continue
+						}
+						// the edge carrying the finish tag is taken only when it is the larger
+						pred := phi.Block().Preds[1-i]
+						facts := DomFacts(pred)
+						if len(pred.Instrs) > 0 {
+							if ifi, isIf := pred.Instrs[len(pred.Instrs)-1].(*ssa.If); isIf && pred.Succs[0] != pred.Succs[1] {
+								cc, tt := normCond(ifi.Cond, pred.Succs[0] == phi.Block())
+								facts = append(facts, condFact{cc, tt})
+							}
+						}
+						for _, f := range facts {
+							if CmpCond(token.GTR, IsValue(b), IsValue(a))(f.Cond, f.Taken) || CmpCond(token.GEQ, IsValue(b), IsValue(a))(f.Cond, f.Taken) {
+								start = phi
+							}
+						}
+					}
+				})
+			}
 			c.Check(start != nil, "wfq-start-tag", c.P.Pos(push.Pos()), "start = max(virtualTime, streamFinish[stream])", "WFQ start tag is not max(virtualTime, streamFinish[stream]): a stream returning from idle keeps stale tags and starves backlogged streams")
 			// finish = start + len/weight stored to both maps
 			okFin := false
